@@ -12,11 +12,11 @@ EXTENDS AttemptCredit, Json, IOUtils
 Trace == ndJsonDeserialize(IOEnv.TRACE_FILE)
 VARIABLE l
 Clause(r) == CASE r.ev = "credit" -> ScheduleVerdict(r.vals8, r.lo8, Unit2, r.first_one)
-               [] r.ev = "scaled" -> Judge(r.base, r.c, r.n, r.flag, r.obs)
+               [] r.ev = "scaled" -> Judge(r.base, r.v, r.n, r.flag, r.obs)
                [] r.ev = "missing" -> JudgeMissing(r.raised)
                [] r.ev = "formula" -> LET b == FirstOffFormula(r.s, r.vals) IN
                                       IF b = 0 THEN "ok" ELSE "formula_at_attempt_" \o ToString(b)
-               [] r.ev = "steplog" -> IF r.log = ExpectedLog(r.c, r.n) THEN "ok" ELSE "steplog"
+               [] r.ev = "steplog" -> IF \E cc \in CredsOf(r.v) : r.log = ExpectedLog(cc, r.n) THEN "ok" ELSE "steplog"
                [] OTHER -> "unknown_event"
 Verdict(i) == LET r == Trace[i]
                   v == Clause(r)
